@@ -294,6 +294,9 @@ class State:
         return v
 
     def write_field(self, obj: V, fname: str, val: V):
+        if fname not in self.ctx.field_types and val.z is not None and val.t[0] in ("int", "float", "bool", "str", "enum", "obj", "list", "nd"):
+            # a field the contracts do not know (e.g. a new private attribute): its sort is taken from the first value stored
+            self.ctx.field_types[fname] = val.t if val.none is None else ("opt", val.t)
         ft = self.field_type(fname)
         q = self.qmode
         if q is not None:
